@@ -55,6 +55,16 @@ func resSX(msg string, v func() SX) SX {
 	return L(A("ok"), v())
 }
 
+// sortedJKeys: keys of a JSON object in sorted order (generators must never draw in map-iteration order)
+func sortedJKeys(m J) []string {
+	ks := make([]string, 0, len(m))
+	for k := range m {
+		ks = append(ks, k)
+	}
+	sort.Strings(ks)
+	return ks
+}
+
 func sortedKeys(m map[string]float64) []string {
 	keys := make([]string, 0, len(m))
 	for k := range m {
